@@ -70,3 +70,73 @@ Definition optview_to_list {T I} (to_opt : T -> option I) (l : list T) : list (o
 (* ---- the checked accessor of view.rs, over any container given by (len, uget) --------------------- *)
 Definition checked_get {A} (len : nat) (uget : nat -> option A) (i : nat) : res A :=
   if i <? len then match uget i with Some x => Ok x | None => Panic OtherPanic end else Panic OtherPanic.
+
+(* ==== mutable accessors (Vec1Mut: view_mut.rs get_mut / uget_mut / try_as_slice_mut) and the valid-get family
+   (view.rs vget / uvget / to_opt_iter / iter_cast / opt_iter_cast) ================================================= *)
+
+(* a write at position i of a list (out of range: unchanged) *)
+Fixpoint update {A} (l : list A) (i : nat) (v : A) : list A :=
+  match l, i with
+  | [], _ => []
+  | _ :: t, O => v :: t
+  | h :: t, S j => h :: update t j v
+  end.
+
+(* Vec<T>: uget_mut = get_unchecked_mut(i); try_as_slice_mut = Some(as_mut_slice()) — always offered *)
+Definition list_uset {A} (l : list A) (i : nat) (v : A) : option (list A) :=
+  if i <? length l then Some (update l i v) else None.
+
+(* VecDeque: uget_mut = VecDeque::get_mut(i).unwrap(): physical slot (head + i) mod cap; None models the
+   unwrap of an out-of-range index (never reached through the checked accessor)                          *)
+Definition ring_uset {A} (r : ring A) (i : nat) (v : A) : option (ring A) :=
+  if i <? rlen r
+  then Some {| rbuf := update (rbuf r) ((rhead r + i) mod rcap r) v; rhead := rhead r; rlen := rlen r |}
+  else None.
+(* try_as_slice_mut: as_mut_slices() = (first, second); Some(first) iff second is empty.  A write at slice
+   index k is a write at physical slot head + k.  Outer None: slice not offered; inner None: k beyond the slice *)
+Definition ring_slice_mut_set {A} (r : ring A) (k : nat) (v : A) : option (option (ring A)) :=
+  if rhead r + rlen r <=? rcap r
+  then Some (if k <? rlen r
+             then Some {| rbuf := update (rbuf r) (rhead r + k) v; rhead := rhead r; rlen := rlen r |}
+             else None)
+  else None.
+
+(* ndarray: uget_mut(i) = *ptr.offset(i * stride) *)
+Definition strided_uset {A} (s : strided A) (i : nat) (v : A) : option (strided A) :=
+  if i <? slen s
+  then Some {| sbase := update (sbase s) (Z.to_nat (spos s i)) v; soff := soff s; sstep := sstep s; slen := slen s |}
+  else None.
+(* try_as_slice_mut = as_slice_mut(): standard layout only (stride 1 or at most one element); slice index k is
+   memory slot off + k                                                                                    *)
+Definition strided_slice_mut_set {A} (s : strided A) (k : nat) (v : A) : option (option (strided A)) :=
+  if orb (sstep s =? 1)%Z (slen s <=? 1)
+  then Some (if k <? slen s
+             then Some {| sbase := update (sbase s) (soff s + k) v; soff := soff s; sstep := sstep s; slen := slen s |}
+             else None)
+  else None.
+(* what the `_mut` twin would do had it used as_slice_memory_order_mut() (the defect class repaired for
+   try_as_slice in daad92b; the `_mut` accessor never had it): slice index k of a stride -1 view is memory
+   slot off + 1 - len + k, i.e. LOGICAL index len - 1 - k                                                  *)
+Definition strided_memory_order_mut_set {A} (s : strided A) (k : nat) (v : A) : option (option (strided A)) :=
+  if orb (sstep s =? 1)%Z (slen s <=? 1) then strided_slice_mut_set s k v
+  else if (sstep s =? -1)%Z
+  then Some (if k <? slen s
+             then Some {| sbase := update (sbase s) (soff s + 1 - slen s + k) v; soff := soff s; sstep := sstep s; slen := slen s |}
+             else None)
+  else None.
+
+(* view_mut.rs get_mut, over any container given by (len, uget_mut-and-write) *)
+Definition checked_set {C A} (len : nat) (uset : nat -> A -> option C) (i : nat) (v : A) : option C :=
+  if i <? len then uset i v else None.
+
+(* view.rs uvget = uget(i).to_opt(); vget = bounds check, then uvget *)
+Definition uvalid_get {T I} (to_opt : T -> option I) (uget : nat -> option T) (i : nat) : option I :=
+  match uget i with Some x => to_opt x | None => None end.
+Definition valid_get {T I} (to_opt : T -> option I) (len : nat) (uget : nat -> option T) (i : nat) : option I :=
+  if i <? len then uvalid_get to_opt uget i else None.
+
+(* view.rs to_opt_iter / iter_cast / opt_iter_cast: titer() mapped element by element *)
+Definition to_opt_iter_m {T I} (to_opt : T -> option I) (l : list T) : list (option I) := map to_opt l.
+Definition iter_cast_m {T U} (cast : T -> U) (l : list T) : list U := map cast l.
+Definition opt_iter_cast_m {T I U} (to_opt : T -> option I) (cast : I -> U) (l : list T) : list (option U) :=
+  map (fun v => option_map cast (to_opt v)) l.
